@@ -180,7 +180,7 @@ func nodeClass(t Tree, i int) string {
 	}
 	c := string([]byte{t[i].Kind, t[i].Out})
 	for _, ch := range t.children(i) {
-		if t[ch].Kind == 't' {
+		if isTailKind(t[ch].Kind) {
 			c += "+tailcaller"
 		}
 	}
